@@ -120,7 +120,7 @@ def run(out: core.Outcome) -> None:
     )
     for name in QUICK if out.tier == "quick" else THOROUGH:
         shape, per, dxu, x0u = cfg_params(name)
-        r = core.tlc("MC_RenderLocate", f"MC_RenderLocate_{name}.cfg", timeout=3000)
+        r = core.tlc("MC_RenderLocate", f"MC_RenderLocate_{name}.cfg", timeout=3000 if out.tier == "quick" else 10800)
         if r.violated:
             out.violation({"tlc_config": name, "violated": r.violated, "tlc_tail": r.stdout[-3000:]})
             continue
